@@ -367,8 +367,13 @@ class History:
         line = ['CALL', str(c['branch']['id']), str(nout), self_var or '-', str(len(toks))] + toks + [o['var'] for o in outs]
         if nout and not outs:
             line.append('-')
+        kept = {}
+        if role == 'method':
+            for i, (a, s_) in enumerate(zip(m.args[:c['n']], sers)):
+                if a.type.marker == '*' and isinstance(s_, tuple):
+                    kept[i] = s_[1]           # the receiver may retain this argument object (the library says which)
         self.ops.append({'kind': 'CALL', 'line': '\t'.join(line), 'entity': c['entity'], 'self': self_var, 'role': role,
-                         'sers': sers, 'outs': outs, 'ret': ret, 'nout': nout})
+                         'sers': sers, 'outs': outs, 'ret': ret, 'nout': nout, 'kept': kept})
         for o in outs:
             if o['kind'] == 'class':
                 self.nobj += 1
@@ -499,10 +504,21 @@ def check_log(plan, ops, blocks, trailer, acc):
     if len(blocks) != len(ops):
         return [{'what': 'simulator executed %d operations, script has %d' % (len(blocks), len(ops))}]
 
+    obj_of = {}        # var -> (class, object id) for every variable ever bound (also deleted ones)
+    retained = {}      # object id -> set of (class, object id) kept alive by it
+
     def expected_live():
         objs = {}
+        work = []
         for v, (cls, oid) in live_vars.items():
             objs[oid] = cls
+            work.append(oid)
+        while work:        # closure over retention: a C++ object lives while a handle or a live object references it
+            o = work.pop()
+            for (kc, ko) in retained.get(o, ()):
+                if ko not in objs:
+                    objs[ko] = kc
+                    work.append(ko)
         out = {}
         for oid, cls in objs.items():
             for k, n in plan.footprint(cls).items():
@@ -533,7 +549,8 @@ def check_log(plan, ops, blocks, trailer, acc):
                 vs.append({'what': 'gateway id did not reach the declared C++ entity', 'op': where, 'expected': op['entity'],
                            'trace': [t.split('\x1e')[0] for t in b['trace']][:5]})
             else:
-                ent, slf, args, ret = lines[0].split('\x1e', 3)
+                ent, slf, args, ret, keptf = (lines[0].split('\x1e') + [''])[:5]
+                op['_kept_idx'] = [int(x) for x in keptf.split(',') if x.strip().isdigit()]
                 acc.count('trace_lines_compared')
                 if kind == 'NEW':
                     origin[op['var']] = slf[1:]
@@ -550,9 +567,16 @@ def check_log(plan, ops, blocks, trailer, acc):
                     vs += check_outputs(plan, op, b, ret, origin, where, acc)
             if kind == 'NEW':
                 live_vars[op['var']] = (op['class'], id(op))
+                obj_of[op['var']] = live_vars[op['var']]
             for o in op['outs']:
                 if o['kind'] == 'class' and o['var'] != '-':
                     live_vars[o['var']] = (o['class'], id(o))
+                    obj_of[o['var']] = live_vars[o['var']]
+            if kind == 'CALL' and op.get('kept') and op.get('self') in obj_of:
+                for idx in op.get('_kept_idx', []):
+                    kv = op['kept'].get(idx)
+                    if kv in obj_of:
+                        retained.setdefault(obj_of[op['self']][1], set()).add(obj_of[kv])
         elif kind in ('GET', 'SET'):
             if kind == 'GET':
                 o = op['outs'][0]
@@ -561,6 +585,7 @@ def check_log(plan, ops, blocks, trailer, acc):
                     if got != 'obj:' + o['class']:
                         vs.append({'what': 'property getter returned %r, expected an object of %s' % (got, o['class']), 'op': where})
                     live_vars[o['var']] = (o['class'], id(o))
+                    obj_of[o['var']] = live_vars[o['var']]
                     origin[o['var']] = None
                 acc.count('property_reads')
             else:
@@ -570,9 +595,11 @@ def check_log(plan, ops, blocks, trailer, acc):
         elif kind == 'VOIDNEW':
             if op['src'] in live_vars:
                 live_vars[op['var']] = live_vars[op['src']]
+                obj_of[op['var']] = live_vars[op['src']]
                 origin[op['var']] = origin.get(op['src'])
         elif kind == 'UNLOAD':
             live_vars.clear()
+            retained.clear()
         # quiescent point: live-object counters
         if b['live'] is not None:
             acc.count('quiescent_live_checks')
